@@ -455,9 +455,28 @@ impl ParserProp {
             if let Some(b) = &c.body { if !infix_arith_ok(b) && st.infix_arith { c.body = Some(Goal::Nl); } }
             rules.push(render::clause(&c, &st));
         }
+        // Sometimes the knowledge base is not empty when the file is loaded (rules added through the API before,
+        // possibly for the same predicates), and sometimes the same file is loaded twice: loading must add the
+        // file's rules, in order, after whatever is there - exactly what add_rules on the parsed rules does.
+        let nprior = if chance(s, 1, 3) { 1 + s.draw(3) as usize } else { 0 };
+        let mut prior: Vec<String> = vec![];
+        for _ in 0..nprior {
+            let mut c = c_clause(s);
+            if chance(s, 1, 2) { c.body = None; }
+            if let Some(b) = &c.body { if !infix_arith_ok(b) && st.infix_arith { c.body = Some(Goal::Nl); } }
+            prior.push(render::clause(&c, &st));
+        }
+        let twice = chance(s, 1, 6);
         // each rule text must itself be acceptable to parse_rule (otherwise the file is not in the claim)
         let mut reference = suiron::KnowledgeBase::new();
-        for r in &rules {
+        let mut loaded = suiron::KnowledgeBase::new();
+        for r in &prior {
+            match parse_guard(|| suiron::parse_rule(r)) {
+                Ok(Ok(rule)) => { suiron::add_rules(&mut reference, vec![rule.clone()]); suiron::add_rules(&mut loaded, vec![rule]); }
+                Ok(Err(_)) | Err(_) => return CaseResult::Discard("rule text not accepted by parse_rule (C19's business)".into()),
+            }
+        }
+        for r in rules.iter().chain(if twice { rules.iter() } else { [].iter() }) {
             match parse_guard(|| suiron::parse_rule(r)) {
                 Ok(Ok(rule)) => suiron::add_rules(&mut reference, vec![rule]),
                 Ok(Err(_)) | Err(_) => return CaseResult::Discard("rule text not accepted by parse_rule (C19's business)".into()),
@@ -515,12 +534,12 @@ impl ParserProp {
         let _ = std::fs::create_dir_all(&dir);
         let path = format!("{}/c21-{}.txt", dir, std::process::id());
         if std::fs::write(&path, &file).is_err() { return CaseResult::Discard("cannot write scratch file".into()); }
-        let mut loaded = suiron::KnowledgeBase::new();
-        let res = match guarded(u64::MAX, || suiron::load_kb_from_file(&mut loaded, &path)) {
+        let res = match guarded(u64::MAX, || { let r1 = suiron::load_kb_from_file(&mut loaded, &path); if twice && r1.is_none() { suiron::load_kb_from_file(&mut loaded, &path) } else { r1 } }) {
             Ok(r) => r,
             Err(f) => return fail(self.id, "loader-panic", format!("{:?}", f), file.clone()),
         };
-        let case = format!("---- file ----\n{}\n---- rules (one per line, as given to parse_rule) ----\n{}", file, rules.join("\n"));
+        let case = format!("---- file{} ----\n{}\n---- rules (one per line, as given to parse_rule) ----\n{}{}", if twice { " (loaded twice)" } else { "" }, file, rules.join("\n"),
+                           if prior.is_empty() { String::new() } else { format!("\n---- rules added to the knowledge base before loading ----\n{}", prior.join("\n")) });
         match res {
             Some(err) => {
                 if class2 { rep.class("class2-rejected-with-error"); }
@@ -541,6 +560,8 @@ impl ParserProp {
         }
         rep.class(if class2 { "class2:break-inside-parentheses" } else { "class1:documented-breaks" });
         if multi { rep.class("multi-line-rule"); }
+        if !prior.is_empty() { rep.class("loaded-into-a-non-empty-knowledge-base"); }
+        if twice { rep.class("file-loaded-twice"); }
         if comment { rep.class("has-comment"); }
         if multi && comment && floaty { rep.nontrivial(fnv(&file)); rep.sample(json!({"file": file})); }
         CaseResult::Pass
